@@ -171,7 +171,7 @@ func init() {
 			if tier == "thorough" {
 				return 25 * time.Minute
 			}
-			return 150 * time.Second
+			return 300 * time.Second
 		},
 		Assume: []string{
 			"index side is read with plan-level index scans (RangeScanWithIndex / PointScanWithIndex), the table side with scan-path queries (P OR P)",
